@@ -498,14 +498,26 @@ def declaration(mesh, case: dict, after_calls_applied: bool) -> Dict[str, Any]:
                 "cls": type(entity).__name__,
                 "ops": decl_ops,
                 "geometry": {} if geo is None else {k: list(v) for k, v in geo.items()},
+                # a sphere shape: what its geometry strings are made from (the model prints them)
+                "sphere": (
+                    {entity.geometry_label: {"c": [float(x) for x in entity.center_point], "r": _spec_nums([[entity.radius]])[0][0]}}
+                    if geo is not None and all(hasattr(entity, a) for a in ("geometry_label", "center_point", "radius")) and list(geo) == [entity.geometry_label]
+                    else {}
+                ),
                 "shape_labels": shape_labels,  # geometry names of the shapes inside an Assembly
             }
         )
     return {"entities": ents}
 
 
-def _g_entries(d: Dict[str, List[str]]) -> List[List[str]]:
-    return [[w_str(k)] + w_list([w_toks(tokenize(p)) for p in props]) for k, props in d.items()]
+def _g_entries(d: Dict[str, List[str]], sphere: Optional[dict] = None) -> List[List[str]]:
+    out = []
+    for k, props in d.items():
+        if sphere and k in sphere:
+            out.append([w_str(k), "SPH"] + [_coord_words(x) for x in sphere[k]["c"]] + [_pynum_word(sphere[k]["r"])])
+        else:
+            out.append([w_str(k)] + w_list([w_toks(tokenize(p)) for p in props]))
+    return out
 
 
 def request_words(decl: dict, case: dict, settings: Dict[str, Any], tails: List[Optional[List[List[str]]]]) -> List[str]:
@@ -565,7 +577,7 @@ def request_words(decl: dict, case: dict, settings: Dict[str, Any], tails: List[
             for ed in o["edges"]:
                 w += ed
             ops.append(w)
-        ents.append(w_list(ops) + w_list(_g_entries(e["geometry"])))
+        ents.append(w_list(ops) + w_list(_g_entries(e["geometry"], e.get("sphere"))))
     words += w_list(ents)
     words.append("1" if case.get("reassemble") or case.get("rewrite") else "0")
     return words
